@@ -2,6 +2,7 @@ import BppProofs.Lemmas.DiscretizeHistory
 import BppProofs.Lemmas.DiscretizeFamilies
 import BppProofs.Lemmas.DiscretizeFamInst
 import BppProofs.Lemmas.DiscretizeWitness
+import BppProofs.Lemmas.DiscretizeTermination
 /-!
 # C09 — a discretised distribution is a valid partition of its continuous parent
 (src/Bpp/Numeric/Prob/AbstractDiscreteDistribution.{h,cpp} and the families built on it)
@@ -142,6 +143,22 @@ theorem class_value_is_mean (par : Parent ℝ) (s s' : DD ℝ) (hs : Pre s) (H :
 separation loop is not needed) -/
 theorem resolved_terminates (par : Parent ℝ) (s : DD ℝ) (hs : Pre s) (hr : resolved par s = true) :
     ∃ s', eqProp par s = .ok s' := resolved_exists par s hs.prec_nonneg hr
+
+/-- **discretize_terminates**: with a positive comparator precision (1e-12 for every family, 1e-20 for
+beta) `discretize()` returns with any of the three schemes, for every parent, class count, domain
+and whatever the class values are — the loop of `insertClass_` that separates equal class values
+ends within `6·n + 1` turns: its step is at least the precision, so every key of the map is
+equivalent to at most three candidates on each side (pigeonhole, `blocked_turns_bound`).  The
+model's fuel (`6·size + 10⁶`) is never exhausted: `Err.fuel` is unreachable. -/
+theorem discretize_terminates (par : Parent ℝ) (s : DD ℝ) (hn : 1 ≤ s.n) (hp : 0 < s.prec) :
+    ∃ s', discretize par s = .ok s' := discretize_total par s hn hp
+
+/-- the hypothesis `0 < precision` is needed: with precision 0 and a class value 0 that is already
+a key the step `max(precision, 4·ε·|v|)` is 0, every candidate is the value itself and the loop
+never ends, whatever the fuel.  (Not reachable through the shipped families, whose precision is
+positive; `AbstractDiscreteDistribution(n, 0., …)` is a protected constructor.) -/
+theorem separation_zero_step_loops (hi : ℝ) (m : TMap ℝ) (h : (TMap.find? 0 0 m).isSome = true) (fuel : Nat) (j f : Int) :
+    searchFree 0 (sepStep 0 0) hi 0 m fuel j f = none := searchFree_zero_step hi m h fuel j f
 
 /-! ## equal-interval scheme -/
 
